@@ -129,3 +129,16 @@ Definition walk_check (c : walk_case) : bool :=
       end
   end.
 Definition walk_mismatches (cs : list walk_case) : list N := failing walk_check cs.
+
+(* ---- the recursion of the describer on the actual side (Model/DescribeActual.v) ---- *)
+From PcoreV Require Import Model.DescribeActual.
+
+(* (resolved types of the aliases met in the actual type - not consulted by the model, printed so that the case can
+    be read -, the actual type, for every mismatch the describer returned (px.VerifDescribe) the number of its path
+    elements below the subject that are not of kind variant) *)
+Definition actual_case := (list aty * aty * list nat)%type.
+Definition actual_check (c : actual_case) : bool :=
+  match c with
+  | (env, a, descents) => descents_ok a descents
+  end.
+Definition actual_mismatches (cs : list actual_case) : list N := failing actual_check cs.
